@@ -202,6 +202,186 @@ def gen_static(ck):
     return lean
 
 
+
+def gen_pool(ck):
+    """E-GEN: the statement-order / guard skeleton of the switch, the post-resume actions and the co-cache (Pool.Skel).
+    Every flag is `true` iff the source text shows the order the pool model is built on; a flag that turns false breaks
+    theorem generated_pool_skeleton (and with it every pool theorem, which are stated for the generated skeleton)."""
+    ah = _nocomment(_src("src/tbb/arena.h"))
+    tc = _src("src/tbb/task.cpp")
+    tdc = _src("src/tbb/task_dispatcher.cpp")
+    tdh = _src("src/tbb/task_dispatcher.h")
+    sch = _src("src/tbb/scheduler_common.h")
+    flags, why = {}, {}
+
+    def before(body, *pats):
+        """all patterns occur in the body, in this order (first occurrences)"""
+        pos = -1
+        for p in pats:
+            m = re.search(p, body or "")
+            if not m or m.start() <= pos:
+                return False
+            pos = m.start()
+        return True
+
+    cc = _body(ah, r"class\s+arena_co_cache\b[^{;]*\{")
+    popb = _body(cc or "", r"task_dispatcher\s*\*\s*pop\s*\(\s*\)\s*\{")
+    mret = re.search(r"(\w+)\s*=\s*my_co_scheduler_cache\[\s*my_head\s*\]\s*;", popb or "")
+    rv = mret.group(1) if mret else "to_return"
+    flags["poolPopClears"] = before(popb, r"my_head\s*=\s*prev_index\(\)\s*;", r"%s\s*=\s*my_co_scheduler_cache\[\s*my_head\s*\]\s*;" % rv,
+                                    r"my_co_scheduler_cache\[\s*my_head\s*\]\s*=\s*nullptr\s*;", r"return\s+%s\s*;" % rv) and \
+        before(popb, r"scoped_lock\s+lock\(\s*my_co_cache_mutex\s*\)", r"internal_empty\(\)")
+    colw = _body(tdc, r"void\s+task_dispatcher::co_local_wait_for_all\s*\(\s*\)\s*noexcept\s*\{")
+    resb = _body(tc, r"bool\s+task_dispatcher::resume\s*\(\s*task_dispatcher\s*&\s*target\s*\)\s*\{")
+    spres = _body(sch, r"void\s+resume\s*\(\s*suspend_point_type\s*\*\s*sp\s*\)\s*\{")
+    fin = _body(sch, r"void\s+finilize_resume\s*\(\s*\)\s*\{")
+    flags["poolFinalizeFirst"] = (
+        before(colw, r"m_suspend_point->finilize_resume\(\)\s*;", r"do_post_resume_action\(\)\s*;", r"local_wait_for_all\(") and
+        before(resb, r"\w+->detach_task_dispatcher\(\)\s*;", r"\w+->attach_task_dispatcher\(target\)\s*;", r"m_suspend_point->resume\(target\.m_suspend_point\)\s*;",
+               r"do_post_resume_action\(\)\s*;", r"m_is_owner_recalled\.store\(\s*false") and
+        before(spres, r"sp->m_prev_suspend_point\s*=\s*this\s*;", r"m_co_context\.resume\(sp->m_co_context\)\s*;", r"finilize_resume\(\)\s*;") and
+        before(fin, r"m_stack_state\.store\(\s*stack_state::active", r"m_prev_suspend_point->m_stack_state\.exchange\(\s*stack_state::suspended\s*\)\s*==\s*stack_state::notified",
+               r"r1::resume\(m_prev_suspend_point\)\s*;", r"m_prev_suspend_point\s*=\s*nullptr\s*;"))
+    isus = _body(tc, r"void\s+task_dispatcher::internal_suspend\s*\(\s*\)\s*\{")
+    mr = re.search(r"(\w+)\s*=\s*(\w+)\.get_suspend_point\(\)->m_is_owner_recalled\.load\(", isus or "")
+    mt = re.search(r"(\w+)\s*=\s*(\w+)\s*\?\s*(\w+)\s*:\s*create_coroutine\(", isus or "")
+    flags["poolRecallChecked"] = bool(mr and mt) and mt.group(2) == mr.group(1) and mt.group(3) == mr.group(2) and \
+        bool(re.search(r"task_dispatcher\s*&\s*%s\s*=\s*slot->default_task_dispatcher\(\)\s*;" % mr.group(2), isus)) and \
+        before(isus, r"m_is_owner_recalled\.load\(", r"create_coroutine\(", r"resume\(%s\)\s*;" % mt.group(1))
+    tgt = mt.group(1) if mt else "target"
+    crc = _body(tc, r"task_dispatcher\s*&\s*create_coroutine\s*\(\s*thread_data\s*&\s*td\s*\)\s*\{")
+    create_ok = before(crc, r"my_co_cache\.pop\(\)\s*;", r"if\s*\(\s*!task_disp\s*\)", r"init_suspend_point\(", r"my_references\s*\+=\s*arena::ref_external\s*;", r"return\s+\*task_disp\s*;")
+    rpt = _body(tdh, r"inline\s+void\s+task_dispatcher::recall_point\s*\(\s*\)\s*\{")
+    rte = _body(tdh, r"suspend_point_type::resume_task::execute\s*\([^)]*\)\s*\{")
+    flags["poolActionBeforeSwitch"] = (
+        before(colw, r"set_post_resume_action\(\s*post_resume_action::cleanup\s*,\s*this\s*\)\s*;", r"while\s*\(\s*resume\(") and
+        before(rpt, r"set_post_resume_action\(\s*post_resume_action::notify\s*,\s*get_suspend_point\(\)\s*\)\s*;", r"internal_suspend\(\)\s*;") and
+        before(rte, r"set_post_resume_action\(\s*task_dispatcher::post_resume_action::register_waiter", r"wait_list\.wait\(", r"\w+->clear_post_resume_action\(\)\s*;",
+               r"r1::resume\(ed_ext\.task_disp->get_suspend_point\(\)\)\s*;", r"set_post_resume_action\(\s*task_dispatcher::post_resume_action::notify",
+               r"ed_ext\.task_disp->resume\(m_target\)\s*;") and create_ok)
+    pra = _body(tc, r"void\s+task_dispatcher::do_post_resume_action\s*\(\s*\)\s*\{")
+    tail = (pra or "").rstrip()
+    flags["poolClearsAction"] = bool(re.search(r"\}\s*\w+->clear_post_resume_action\(\)\s*;\s*$", tail)) and \
+        before(pra, r"switch\s*\(\s*\w+->my_post_resume_action\s*\)", r"case\s+post_resume_action::register_waiter\s*:", r"->notify\(\)\s*;",
+               r"case\s+post_resume_action::cleanup\s*:", r"case\s+post_resume_action::notify\s*:")
+    cl = _body(pra or "", r"case\s+post_resume_action::cleanup\s*:\s*\{")
+    mc = re.search(r"(\w+)\s*=\s*static_cast<task_dispatcher\*>\(\w+->my_post_resume_arg\)\s*;", cl or "")
+    cv = mc.group(1) if mc else "to_cleanup"
+    flags["poolCleanupCaches"] = before(cl, r"%s\s*=\s*static_cast<task_dispatcher\*>\(\w+->my_post_resume_arg\)\s*;" % cv, r"on_thread_leaving\(\s*arena::ref_external\s*\)\s*;",
+                                        r"my_co_cache\.push\(\s*%s\s*\)\s*;" % cv) and not re.search(r"~task_dispatcher|cache_aligned_deallocate|delete", cl or "")
+    lw = _body(_nocomment(tdh), r"d1::task\s*\*\s*task_dispatcher::local_wait_for_all\s*\(\s*d1::task\s*\*\s*t\s*,\s*Waiter\s*&\s*waiter\s*\)\s*\{")
+    flags["poolRecallPointGuard"] = (
+        before(rpt, r"if\s*\(\s*this\s*!=\s*&m_thread_data->my_arena_slot->default_task_dispatcher\(\)\s*\)\s*\{", r"set_post_resume_action\(") and
+        bool(re.search(r"if\s*\(\s*dl_guard\.old_properties\.outermost\s*\)\s*\{\s*recall_point\(\)\s*;\s*\}", lw or "")) and
+        before(isus, r"resume\(%s\)\s*;" % tgt, r"if\s*\(\s*m_properties\.outermost\s*\)\s*\{\s*recall_point\(\)\s*;\s*\}"))
+    rb = _body(tc, r"\bvoid\s+resume\s*\(\s*suspend_point_type\s*\*\s*sp\s*\)\s*\{")
+    tnr = _body(sch, r"bool\s+try_notify_resume\s*\(\s*\)\s*\{")
+    blk = _body(rb or "", r"if\s*\(\s*sp->try_notify_resume\(\)\s*\)\s*\{") if rb else None
+    outside = (rb or "").replace(blk or "\0", "") if blk else (rb or "")
+    flags["poolXchgThenPush"] = bool(blk) and bool(re.search(r"\.push\(\s*&sp->m_resume_task", blk)) and not re.search(r"\.push\(", outside) and \
+        bool(re.search(r"return\s+m_stack_state\.exchange\(\s*stack_state::notified\s*\)\s*==\s*stack_state::suspended\s*;", tnr or ""))
+    gsr = _body(tdh, r"inline\s+d1::task\s*\*\s*get_self_recall_task\s*\(\s*arena_slot\s*&\s*slot\s*\)\s*\{")
+    flags["poolSelfRecallChecked"] = before(gsr, r"sp\s*=\s*slot\.default_task_dispatcher\(\)\.m_suspend_point\s*;",
+                                            r"if\s*\(\s*sp\s*&&\s*sp->m_is_owner_recalled\.load\(", r"t\s*=\s*&sp->m_resume_task\s*;")
+    m = re.search(r"my_co_cache\.init\(\s*(\d+)\s*\*\s*num_slots\s*\)\s*;", _nocomment(_src("src/tbb/arena.cpp")))
+    factor = int(m.group(1)) if m else 0
+    ck.oblige("gen:co-cache capacity is `<k> * num_slots` with k >= 1 (arena.cpp `my_co_cache.init`)", "generated", factor >= 1, "k = %s" % (factor if m else "pattern not found"))
+    # the dead field the property text mentions: m_is_critical (informational; the stream of a resume task is selected by the
+    # target's m_properties.critical_task_allowed, pinned by the r1::resume obligation above)
+    uses = []
+    for f in sorted(os.listdir(os.path.join(REPO, "src/tbb"))):
+        if f.endswith((".h", ".cpp")):
+            for i, l in enumerate(_nocomment(_src("src/tbb/" + f)).split("\n")):
+                if "m_is_critical" in l:
+                    uses.append("%s:%d" % (f, i + 1))
+    ck.extra["m_is_critical_occurrences"] = uses
+    ck.extra["pool_skeleton"] = flags
+    lean = "/-- arena_co_cache capacity = coCacheFactor * num_slots (arena.cpp `my_co_cache.init`) -/\ndef coCacheFactor : Nat := %d\n" % factor
+    for k in ["poolPopClears", "poolFinalizeFirst", "poolRecallChecked", "poolActionBeforeSwitch", "poolClearsAction", "poolCleanupCaches",
+              "poolRecallPointGuard", "poolXchgThenPush", "poolSelfRecallChecked"]:
+        lean += "def %s : Bool := %s\n" % (k, "true" if flags[k] else "false")
+    return lean, factor
+
+
+def gen_wait(ck):
+    """E-GEN for the Wait model: in the three kinds of tasks whose suspension the property talks about the body is called
+    before finalize releases the reference of the wait object."""
+    tg = _nocomment(_src("include/oneapi/tbb/task_group.h"))
+    pf = _nocomment(_src("include/oneapi/tbb/parallel_for.h"))
+    ac = _nocomment(_src("src/tbb/arena.cpp"))
+
+    def order(body, *pats):
+        pos = -1
+        for p in pats:
+            m = re.search(p, body or "")
+            if not m or m.start() <= pos:
+                return False
+            pos = m.start()
+        return True
+
+    ft = _body(tg, r"class\s+function_task\s*:\s*public\s+task_handle_task\s*\{")
+    fte = _body(ft or "", r"d1::task\s*\*\s*execute\s*\(\s*d1::execution_data\s*&\s*ed\s*\)\s*override\s*\{")
+    a1 = order(fte, r"task_ptr_or_nullptr\(\s*m_func\s*\)", r"finalize\(\s*&ed\s*\)\s*;", r"return\s+res\s*;")
+    thh = _nocomment(_src("include/oneapi/tbb/detail/_task_handle.h"))
+    tht = _body(thh, r"class\s+task_handle_task\s*:\s*public\s+d1::task\s*\{")
+    fin = _body(tht or "", r"void\s+finalize\s*\([^)]*\)\s*\{")
+    dtor = _body(tht or "", r"~task_handle_task\s*\(\s*\)\s*override\s*\{")
+    # finalize destroys the task object; its destructor releases the reference that the constructor reserved
+    a1 = a1 and bool(re.search(r"m_allocator\.delete_object\(\s*this", fin or "")) and bool(re.search(r"m_wait_tree_vertex->release\(\)\s*;", dtor or "")) and \
+        bool(re.search(r"m_wait_tree_vertex->reserve\(\)\s*;", tht or ""))
+    sfe = _body(pf, r"task\s*\*\s*start_for\s*<\s*Range\s*,\s*Body\s*,\s*Partitioner\s*>::execute\s*\(\s*execution_data\s*&\s*ed\s*\)\s*\{")
+    a2 = order(sfe, r"my_partition\.execute\(\s*\*this\s*,\s*my_range\s*,\s*ed\s*\)\s*;", r"finalize\(\s*ed\s*\)\s*;")
+    sff = _body(pf, r"void\s+start_for\s*<\s*Range\s*,\s*Body\s*,\s*Partitioner\s*>::finalize\s*\(\s*const\s+execution_data\s*&\s*ed\s*\)\s*\{")
+    a2 = a2 and bool(re.search(r"fold_tree\s*<\s*tree_node\s*>\s*\(", sff or ""))
+    dt = _body(ac, r"class\s+delegated_task\s*:\s*public\s+d1::task\s*\{")
+    dte = _body(dt or "", r"d1::task\s*\*\s*execute\s*\(\s*d1::execution_data\s*&\s*ed\s*\)\s*override\s*\{")
+    a3 = order(dte, r"m_delegate\(\)\s*;", r"finalize\(\)\s*;", r"return\s+nullptr\s*;")
+    dtf = _body(dt or "", r"void\s+finalize\s*\(\s*\)\s*\{")
+    a3 = a3 and order(dtf, r"m_wait_ctx\.release\(\)\s*;", r"m_monitor\.notify\(", r"m_completed\.store\(\s*true")
+    ck.extra["wait_release_after_body"] = {"function_task (task_group::run)": a1, "start_for (parallel_for)": a2, "delegated_task (task_arena::execute)": a3}
+    return "/-- function_task / start_for / delegated_task: the body runs, then finalize releases the wait reference -/\ndef waitReleaseAfterBody : Bool := %s\n" % ("true" if a1 and a2 and a3 else "false")
+
+
+def ring_differential(ck, nseq):
+    """E-PURE style: the real arena_co_cache (white box, real task_dispatcher objects) against the Lean ring model."""
+    objs = common.shim_runtime_objects()
+    exe = cxx_build("C20", "cc", ["harness/c20/cc.cpp", common.SHIM_SRC],
+                    flags=["-O1", "-g", "-fno-access-control", "-I" + REPO + "/src"] + common.SHIM_FLAGS, libs=objs + ["-ldl"])
+    rng = ck.rng
+    lines, nops = [], 0
+    for i in range(nseq):
+        cap = rng.choice([1, 1, 2, 2, 3, 4, 5, 8])
+        lines.append("init %d" % cap)
+        inring, nxt = [], 0
+        for j in range(rng.randrange(4, 40)):
+            if rng.random() < 0.55:
+                lines.append("push %d" % nxt)
+                inring.append(nxt)
+                nxt += 1
+            else:
+                lines.append("pop")
+        lines.append("cleanup")
+        nops += 1
+    text = "\n".join(lines) + "\n"
+    rc, out, err = sh([exe], input=text, timeout=120)
+    impl = [l for l in out.split("\n") if l]
+    try:
+        model = drv("c20ring", text)
+    except common.BuildError as e:
+        return "ring model driver unavailable: %s" % e, 0
+    if rc != 0 or len(impl) != len(lines):
+        return "the co-cache harness failed (rc=%d, %d answers for %d operations) %s" % (rc, len(impl), len(lines), err[-200:]), 0
+    for k, (l, a, b) in enumerate(zip(lines, impl, model)):
+        if a.strip() != b.strip():
+            j = k
+            while j > 0 and not lines[j].startswith("init"):
+                j -= 1
+            ck.counterexample("co-cache-ring-differs-from-model", "arena_co_cache: after [%s] the implementation answers [%s], the model [%s]" % (" ; ".join(lines[j:k + 1]), a, b),
+                              {"engine": "E-PURE arena_co_cache", "ops": lines[j:k + 1], "implementation": a, "model": b, "how": "build/C20/cc < ops"})
+            return "operation %d [%s]: implementation [%s], model [%s]" % (k, l, a, b), len(lines)
+    return None, len(lines)
+
+
 def gen_finish(ck, lean, probe_runs):
     """E-GEN, observed part: the isolation of the dispatcher a suspending thread moves onto (white-box observation on the
     instrumented runtime, scenarios with a suspension inside this_task_arena::isolate), then write Generated/C20.lean."""
@@ -254,7 +434,7 @@ def spec_name(spec):
 
 def run_one(exe, spec):
     rc, out, err = sh([exe] + spec_args(spec), timeout=TIMEOUT)
-    r = {"spec": spec, "rc": rc, "sps": {}, "ev": [], "mon": [], "stat": {}, "susp": {}, "guides": [], "sched": "", "err": err[-400:]}
+    r = {"spec": spec, "rc": rc, "sps": {}, "disp": {}, "ev": [], "mon": [], "stat": {}, "susp": {}, "guides": [], "sched": "", "err": err[-400:]}
     for l in out.split("\n"):
         w = l.split()
         if not w:
@@ -264,12 +444,16 @@ def run_one(exe, spec):
                 r["ev"].append(w[1:])
         elif w[0] == "sp":
             r["sps"][w[1]] = w[2:]
+        elif w[0] == "disp":
+            r["disp"][w[1]] = w[2:]
         elif w[0] in ("mon", "mon+"):
             r["mon"].append(" ".join(w[1:]))
         elif w[0] == "stat" and w[1] == "guide":
             r["guides"].append({w[i]: int(w[i + 1]) for i in range(3, len(w) - 1, 2)})
         elif w[0] == "stat" and w[1] == "susp":
             r["susp"][int(w[2])] = {w[i]: int(w[i + 1]) for i in range(3, len(w) - 1, 2)}
+        elif w[0] == "stat" and w[1] == "count_samples":
+            r["count_samples"] = int(w[2])
         elif w[0] == "stat":
             r["stat"] = {w[i]: int(w[i + 1]) for i in range(1, len(w) - 1, 2)}
         elif w[0] == "sched":
@@ -301,6 +485,7 @@ def model_lines(r):
     susp_sp = {}                 # suspension index -> sp
     in_task = set()              # suspension indices that run inside a covered task
     covered_sps = set()
+    in_submit = set()
     unmatched_loads = 0
 
     def owner_of(s):
@@ -312,6 +497,9 @@ def model_lines(r):
     def ensure(s, tid_hint=None):
         if s not in started:
             o = owner_of(s)
+            kind0 = r["sps"][s]
+            if o is None and kind0 and kind0[0] == "slot" and tid_hint is not None:
+                o = tid_hint        # a slot of an arena whose occupancy words are not named (temporary arena): its first user owns it
             started[s] = o
             if o is not None:
                 onstack[s] = o
@@ -327,7 +515,8 @@ def model_lines(r):
                 onstack[s] = o
 
     def add(s, line, desc):
-        ensure(s)
+        w = line.split()
+        ensure(s, int(w[1]) if len(w) > 1 and w[1].isdigit() else None)
         lines[s].append((line, desc))
 
     for i, e in enumerate(ev):
@@ -335,7 +524,8 @@ def model_lines(r):
         if e[1] == "note":
             tag = e[2]
             if tag == "task_begin":
-                in_task.add(int(e[3]))
+                if not (r["spec"]["nest"] & 16):     # (inside a nested task_arena::execute the suspended stack is the nested arena's, not the task's)
+                    in_task.add(int(e[3]))
             elif tag == "cb":
                 s, k = e[3], int(e[4])
                 if s in lines:
@@ -361,6 +551,10 @@ def model_lines(r):
             elif tag == "wait_done":
                 for s in sorted(covered_sps):
                     add(s, "waitcheck %d 1" % t, "wait returned")
+            elif tag == "submit_begin":
+                in_submit.add(t)
+            elif tag == "submit_end":
+                in_submit.discard(t)
             continue
         kind, var = e[1], e[2]
         if var.startswith("occ"):
@@ -371,6 +565,8 @@ def model_lines(r):
                 occupant[slot] = t
             continue
         if var.startswith("rts") or var.startswith("cts"):
+            if kind == "for" and t in in_submit:
+                continue                 # the harness itself publishes a critical task (r1::submit): not a resume task
             if kind == "for":
                 s = pendpush.pop(t, None) or lastntf.get(t)
                 if s is not None:
@@ -479,6 +675,345 @@ def validate(r):
     return None, recs, loads
 
 
+# ------------------------------------------------------------------------------------------------------------------
+# trace -> Pool model (driver c20pool): stack switches, co-cache operations, post-resume actions of one arena
+# ------------------------------------------------------------------------------------------------------------------
+ACT_NAMES = {1: "register_waiter", 2: "cleanup", 3: "notify", 4: "none"}
+
+
+def pool_lines(r, factor):
+    """Returns ({arena: [(line, description)]}, problem).  One Pool instance per arena.  Model thread = slot index of the
+    real thread in that arena (foreign threads: nt + real tid); model dispatcher = slot index for a slot's default
+    dispatcher, nt, nt+1, ... in creation order for coroutines."""
+    ev, disp = r["ev"], r["disp"]
+    out = {}            # arena -> lines
+    nt, nextco, mid = {}, {}, {}
+    occupant = {}       # "a.i" -> real tid
+    cur, phase, pend_act, rc_after_act, cleared_regw, selfres = {}, {}, {}, {}, {}, {}
+    lastntf, pendpush, resume_called = {}, {}, {}
+    mlvl = {}           # dispatcher name -> 0/1 as the model has it (slot dispatchers)
+    popped = {}         # real tid -> [names] popped since its arena's reference count reached 0
+    dying = {}          # real tid -> arena being destroyed by it
+    wn_old = {}         # (tid) -> pending fadd on a notify counter: (dispatcher name, old value)
+    in_submit = set()
+    regw_state = {}     # dispatcher id string -> open (node registered, thread not switched yet) | switched | cancelled (wait was already complete)
+    regw_open, early_wn = {}, {}   # dispatcher id string -> registrant that has not switched yet; -> monitor thread that notified its node already
+    inpop, sawpop, pending_create = {}, {}, {}   # create_coroutine: lock ... unlock of the co-cache mutex without a pop = a new coroutine
+
+    def arena_of(name):
+        k = disp.get(name)
+        if not k:
+            return None
+        return k[1].split(".")[0] if k[0] == "slot" else k[1]
+
+    def lines(a):
+        return out.setdefault(a, [])
+
+    def model_id(a, name, create=False):
+        k = disp[name]
+        if k[0] == "slot":
+            return int(k[1].split(".")[1])
+        m = mid.setdefault(a, {})
+        if name not in m:
+            if not create:
+                return None
+            m[name] = nextco[a]
+            nextco[a] += 1
+        return m[name]
+
+    def mtid(a, T):
+        for slot, t in occupant.items():
+            sa, si = slot.split(".")
+            if sa == a and t == T:
+                return int(si)
+        return nt.get(a, 64) + T
+
+    def add(a, line, desc):
+        if a in nt:
+            lines(a).append((line, desc))
+
+    for e in ev:
+        T = int(e[0])
+        if e[1] == "note":
+            tag = e[2]
+            if tag == "rcap":
+                a, cap = e[3], int(e[4])
+                if cap % factor:
+                    return None, "co-cache capacity %d is not a multiple of the generated factor %d" % (cap, factor)
+                nt[a] = cap // factor
+                nextco[a] = nt[a]
+                lines(a).insert(0, ("init %d %d %d" % (nt[a], cap, nt[a] + 8), "init"))
+            elif tag == "cb":
+                name = e[3]
+                a = arena_of(name)
+                if a is not None:
+                    add(a, "op %d suspend" % mtid(a, T), "suspend callback on %s" % name)
+                    phase[T] = "cb"
+            elif tag == "cb_end":
+                a = arena_of(e[3])
+                if a is not None:
+                    add(a, "op %d cbret" % mtid(a, T), "callback returned")
+                    phase[T] = "susp"
+            elif tag == "resume_call":
+                resume_called[T] = e[3]
+            elif tag == "submit_begin":
+                in_submit.add(T)
+            elif tag == "submit_end":
+                in_submit.discard(T)
+            elif tag == "actset":
+                kind = int(e[3])
+                pend_act[T] = (kind, e[4])
+                rc_after_act[T] = False
+                cleared_regw[T] = False
+                if kind == 1:
+                    regw_open[e[4]] = T
+                    regw_state[e[4]] = "open"
+            elif tag == "actclr":
+                if phase.get(T, "idle") == "idle" and (pend_act.get(T) or (0,))[0] == 1:
+                    cleared_regw[T] = True      # resume_task::execute: the nested wait is already complete
+                    for k in [k for k, v in regw_open.items() if v == T]:
+                        regw_open.pop(k)
+                        regw_state[k] = "cancelled"
+                        early_wn.pop(k, None)   # (a notification of the node that was never waited on has no effect)
+                pend_act[T] = None
+            elif tag == "att":
+                new = "D" + e[3]
+                old = cur.get(T)
+                cur[T] = new
+                a = arena_of(new)
+                if a is None or a not in nt:
+                    continue
+                if disp[new][0] == "slot" and new not in mlvl:
+                    mlvl[new] = 0
+                if old is None or arena_of(old) != a:
+                    phase[T] = "idle"
+                    continue            # the thread entered the arena (or came back from another one)
+                t = mtid(a, T)
+                mo, mn = model_id(a, old), None
+                if disp[new][0] == "co" and new not in mid.get(a, {}):
+                    if T in pending_create:
+                        mn = pending_create.pop(T)
+                        mid.setdefault(a, {})[new] = mn
+                        crt = None
+                    else:
+                        mn = model_id(a, new, create=True)
+                        crt = ("ev %d create %d" % (t, mn), "new coroutine %s" % new)
+                else:
+                    mn = model_id(a, new)
+                    crt = None
+                if phase.get(T, "idle") == "idle":
+                    pa = pend_act.get(T)
+                    if pa:
+                        add(a, "op %d take %d %s 0" % (t, mn, ACT_NAMES.get(pa[0], "?")), "took the resume task of %s (%s)" % (new, ACT_NAMES.get(pa[0])))
+                    elif cleared_regw.get(T) or T in selfres:
+                        add(a, "op %d take %d register_waiter 1" % (t, mn), "took the resume task of %s, own wait already complete" % new)
+                        selfres.pop(T, None)
+                    else:
+                        add(a, "op %d take %d none 0" % (t, mn), "switch to %s without any action set" % new)
+                for k in [k for k, v in regw_open.items() if v == T]:
+                    regw_open.pop(k)
+                    regw_state[k] = "switched"
+                    if k in early_wn:
+                        # the monitor notified the node between its registration and the switch
+                        add(a, "op %d waitdone %d" % (mtid(a, early_wn.pop(k)), model_id(a, "D" + k)), "monitor notified the node of D%s before the switch" % k)
+                if crt:
+                    add(a, crt[0], crt[1])
+                add(a, "ev %d att %d %d" % (t, mo, mn), "switch %s -> %s" % (old, new))
+                phase[T] = "idle"
+                cleared_regw[T] = False
+            elif tag == "rpop":
+                name = "D" + e[3]
+                a = arena_of(name)
+                sawpop[T] = True
+                if T in dying:
+                    popped.setdefault(T, []).append(name)
+                elif a is not None:
+                    if e[4] != "1":
+                        add(a, "ev %d popped-slot-not-cleared" % mtid(a, T), "pop did not clear the slot of %s" % name)
+                    add(a, "ev %d pop %d" % (mtid(a, T), model_id(a, name)), "co-cache pop %s" % name)
+            elif tag == "rpush":
+                name = "D" + e[3]
+                a = arena_of(name)
+                evn = None if e[4] in ("-1", "18446744073709551615") else "D" + e[4]
+                if a is not None:
+                    add(a, "ev %d cache %d evict %s" % (mtid(a, T), model_id(a, name), "-" if evn is None else model_id(a, evn)),
+                        "co-cache push %s (replaced: %s)" % (name, evn))
+            elif tag == "lvl":
+                name = "D" + e[3]
+                a = arena_of(name)
+                if a is None or disp[name][0] != "slot" or a not in nt:
+                    continue
+                want = 0 if e[4] == "1" else 1
+                if mlvl.get(name, 0) != want and phase.get(T, "idle") == "idle":
+                    add(a, "op %d %s" % (mtid(a, T), "enter" if want else "exit"), "outermost flag of %s -> %s" % (name, e[4]))
+                    mlvl[name] = want
+            elif tag == "arena_dead":
+                a = e[3]
+                if a in nt:
+                    for i in range(nt[a]):
+                        add(a, "op %d leave" % i, "slot %d is empty at arena destruction" % i)
+                    ids = [model_id(a, n) for n in popped.get(T, [])]
+                    add(a, "op %d cleanup" % (nt[a] + T), "free_arena: my_co_cache.cleanup() destroyed %s" % popped.get(T, []))
+                    add(a, "ev-label cleanup%s" % "".join(" %d" % i for i in ids), "destroyed set")
+                dying.pop(T, None)
+            continue
+        kind, var = e[1], e[2]
+        if var.startswith("occ"):
+            slot = var[3:]
+            if kind == "xchg" and e[4] == "0" and e[5] == "1":
+                occupant[slot] = T
+            elif kind == "store" and e[4] == "1":
+                occupant[slot] = T
+            continue
+        if var.startswith("cmx"):
+            a = var[3:]
+            if kind == "xchg" and e[6] == "1" and e[4] == "0" and phase.get(T) in ("susp2", "recall") and a in nt:
+                inpop[T], sawpop[T] = a, False
+            elif kind == "store" and inpop.get(T) == a:
+                if not sawpop.get(T):
+                    # create_coroutine: my_co_cache.pop() returned nothing: a new dispatcher is created
+                    pending_create[T] = nextco[a]
+                    nextco[a] += 1
+                    add(a, "ev %d create %d" % (mtid(a, T), pending_create[T]), "co-cache pop found nothing: a new coroutine is created")
+                inpop.pop(T, None)
+            continue
+        if var.startswith("refs"):
+            if kind == "fsub" and e[5] == "0":
+                dying[T] = var[4:]
+                popped[T] = []
+            continue
+        if var.startswith("rts") or var.startswith("cts"):
+            if kind == "for" and T in in_submit:
+                continue
+            if kind == "for":
+                name = pendpush.pop(T, None) or lastntf.get(T)
+                if name:
+                    a = arena_of(name)
+                    add(a, "ev %d %d push" % (mtid(a, T), model_id(a, name)), "resume task of %s published" % name)
+            continue
+        if var.startswith("wn"):
+            if kind == "fadd":
+                wn_old[T] = ("D" + var[2:], int(e[4]))
+                name = "D" + var[2:]
+                a = arena_of(name)
+                if a is not None and int(e[4]) == 0:
+                    # first notification of the resume_node: by its own post-resume action, or by the monitor
+                    if pend_act.get(T) and pend_act[T][0] == 1 and pend_act[T][1] == var[2:] and phase.get(T, "idle") == "idle":
+                        add(a, "ev %d wnotify %d 0" % (mtid(a, T), model_id(a, name)), "register_waiter action notifies the node of %s first" % name)
+                    elif var[2:] in regw_open:
+                        early_wn[var[2:]] = T
+                    elif regw_state.get(var[2:]) == "cancelled":
+                        pass        # skipped wake-up of a node whose wait was already complete: no effect
+                    else:
+                        add(a, "op %d waitdone %d" % (mtid(a, T), model_id(a, name)), "monitor notifies the node of %s first" % name)
+                    wn_old.pop(T, None)
+            continue
+        if "." not in var:
+            continue
+        name, fld = var.rsplit(".", 1)
+        if name not in disp:
+            continue
+        a = arena_of(name)
+        if a is None or a not in nt:
+            continue
+        t, m = mtid(a, T), model_id(a, name)
+        if m is None:
+            continue
+        if kind == "load":
+            pa = pend_act.get(T)
+            if fld == "rc" and pa is not None and pa[0] == 3 and phase.get(T, "idle") == "idle":
+                # recall_point: the action is set, THEN internal_suspend reads the default dispatcher's recall flag
+                # (a resume task taken by get_self_recall_task reads it BEFORE the action is set)
+                old = cur.get(T)
+                if old is not None and arena_of(old) == a:
+                    add(a, "op %d recall" % t, "recall_point on %s" % old)
+                    add(a, "ev %d ldrc %d %s" % (t, m, e[4]), "internal_suspend reads the recall flag of %s" % name)
+                    if old in mlvl:
+                        mlvl[old] = 0
+                    phase[T] = "recall"
+            elif fld == "rc" and phase.get(T) == "susp":
+                add(a, "ev %d ldrc %d %s" % (t, m, e[4]), "internal_suspend reads the recall flag of %s" % name)
+                phase[T] = "susp2"
+            continue
+        if fld == "rc":
+            if kind == "store":
+                add(a, "ev %d %d store rc %s %s" % (t, m, e[4], e[5]), "m_is_owner_recalled.store(%s) on %s" % (e[4], name))
+            continue
+        if kind == "xchg":
+            old, new = e[4], e[5]
+            if new == "2":
+                lastntf[T] = name
+                if old == "1":
+                    pendpush[T] = name
+                if T in wn_old and wn_old[T][0] == name:
+                    # second notification of the resume_node calls r1::resume
+                    _, _o = wn_old.pop(T)
+                    if pend_act.get(T) and pend_act[T][0] == 1:
+                        add(a, "ev %d wnotify %d 1 ; %d xchg %s 2" % (t, m, m, old), "register_waiter action notifies second: r1::resume(%s)" % name)
+                    else:
+                        add(a, "op %d waitdone %d" % (t, m), "monitor notifies second: r1::resume(%s)" % name)
+                        add(a, "ev-label wnotify %d 1 ; %d xchg %s 2" % (m, m, old), "its exchange")
+                elif resume_called.get(T) == name:
+                    resume_called.pop(T, None)
+                    add(a, "op %d resume %d" % (t, m), "tbb::task::resume(%s)" % name)
+                    add(a, "ev-label %d xchg %s 2" % (m, old), "its exchange")
+                elif cur.get(T) == name and phase.get(T, "idle") == "idle":
+                    selfres[T] = old        # resume_task::execute resumes its own stack before leaving it: part of `take ... 1`
+                else:
+                    add(a, "ev %d %d xchg %s 2" % (t, m, old), "leaver notifies %s" % name)
+            elif new == "1":
+                add(a, "ev %d %d xchg %s 1" % (t, m, old), "finilize_resume: %s.exchange(suspended)" % name)
+            else:
+                add(a, "ev %d %d unknown-exchange %s %s" % (t, m, old, new), "unexpected exchange")
+        elif kind == "store":
+            add(a, "ev %d %d store ss %s %s" % (t, m, e[4], e[5]), "m_stack_state.store(%s) on %s" % (e[4], name))
+        else:
+            add(a, "ev %d %d unknown-access %s" % (t, m, kind), "unexpected access kind")
+    return out, None
+
+
+def validate_pool(r, factor):
+    """Returns (problem or None, stats dict)."""
+    if r["spec"]["nest"] & 16:
+        return None, {}
+    out, prob = pool_lines(r, factor)
+    if prob:
+        return prob, {}
+    stats = {"events": 0, "switches": 0, "dead": 0, "arenas": 0, "freed": 0}
+    deadlock = r["stat"].get("deadlock", 0)
+    for a, ls in sorted(out.items()):
+        if len(ls) <= 1:
+            continue
+        # `ev-label` lines state the label the preceding op must have answered with
+        text, expect = [], {}
+        for (l, d) in ls:
+            if l.startswith("ev-label "):
+                expect[len(text) - 1] = l[len("ev-label "):]
+            else:
+                text.append((l, d))
+        res = drv("c20pool", "\n".join(l for l, _ in text) + "\nend\n")
+        if len(res) != len(text) + 1:
+            return "pool driver produced %d lines for %d inputs" % (len(res), len(text) + 1), stats
+        for i, ((l, d), o) in enumerate(zip(text, res)):
+            if o.startswith("MISMATCH") or o == "bad-op":
+                return "arena %s: %s [%s] -> %s" % (a, d, l, o[:300]), stats
+            if i in expect and o.strip() != ("ok " + expect[i]).strip() and not o.startswith("skipped"):
+                return "arena %s: %s [%s] answered [%s], the implementation did [%s]" % (a, d, l, o, expect[i]), stats
+        m = re.match(r"summary fail=(\d) err=(\d) cacheErr=(\d) events=(\d+) nd=(\d+) busy=(\d+) logsOk=(\d) ring=(\d+) refs=(\d+) live=(\d+) dead=(\d+) freed=(\d) switches=(\d+)", res[-1])
+        if not m:
+            return "arena %s: unreadable summary %s" % (a, res[-1][:200]), stats
+        if m.group(1) != "0" or m.group(2) != "0" or m.group(3) != "0" or m.group(7) != "1":
+            return "arena %s: model flags at the end of the trace: %s" % (a, res[-1][:200]), stats
+        if not deadlock and (m.group(6) != "0" or m.group(9) != "0"):
+            return "arena %s: at the end of the run a model thread is in the middle of a switch, or a coroutine still holds a reference: %s" % (a, res[-1][:200]), stats
+        stats["events"] += int(m.group(4))
+        stats["switches"] += int(m.group(13))
+        stats["dead"] += int(m.group(11))
+        stats["freed"] += int(m.group(12))
+        stats["arenas"] += 1
+    return None, stats
+
+
 def classify_window(r):
     """Where did the foreign resumer's exchange(notified) of suspension 0 fall relative to the leaver's steps?"""
     ev = r["ev"]
@@ -544,6 +1079,19 @@ ISO_FAMILIES = [
     ("nwait", 1, "f", 0, 0), ("nwait", 1, "ff", 0, 0), ("nwait", 1, "F", 0, 2), ("nwait", 2, "f", 1, 0), ("nwait", 1, "w", 0, 0), ("nwait", 1, "t", 0, 0),
     ("nwait", 1, "fs", 1, 2), ("nwait", 3, "fF", 1, 2), ("nwait", 1, "f", 0, 2),
 ]
+# (c) repeated suspension of one task (nest bit 3), suspension inside task_arena::execute at the nested arena's outermost level
+# (exec), inside a nested parallel_for (npfor), inside task_arena::execute of another arena from within a task (nest bit 4),
+# resume by another task that itself was suspended and resumed (x), more concurrent suspensions than the co-cache of a
+# one-slot arena holds (capacity 4: forces create + replace + destroy), arena destruction with cached coroutines (always)
+NEW_FAMILIES = [
+    ("tg", 1, "ff", 0, 8), ("tg", 2, "fff", 1, 8), ("tg", 2, "fsf", 0, 8), ("tg", 3, "ftf", 1, 8), ("pfor", 2, "ff", 1, 8), ("arena1", 1, "fff", 0, 8),
+    ("exec", 1, "ff", 0, 0), ("exec", 2, "ff", 1, 0), ("exec", 2, "fs", 1, 0), ("exec", 3, "ft", 1, 0),
+    ("npfor", 1, "f", 1, 0), ("npfor", 2, "ff", 1, 0), ("npfor", 2, "FS", 1, 0), ("npfor", 3, "fs", 2, 0),
+    ("tg", 1, "f", 0, 16), ("tg", 2, "ff", 0, 16), ("tg", 2, "fs", 1, 16),
+    ("tg", 1, "fx", 0, 0), ("tg", 2, "fx", 0, 0), ("tg", 2, "ffx", 1, 0), ("tg", 3, "fxx", 1, 0),
+    ("crit", 1, "f", 0, 0), ("crit", 2, "f", 1, 0), ("crit", 2, "fs", 0, 0), ("crit", 3, "ff", 1, 0),
+    ("arena1", 1, "ffffff", 0, 0), ("arena1", 2, "fffff", 0, 0), ("arena1", 1, "ffffffff", 0, 0), ("arena1", 2, "ffffsf", 1, 0),
+]
 # families whose only arena thread is the suspending thread: there the pre-spawned work MUST be run by that thread
 SINGLE = lambda fam: fam[1] == 1 or fam[0] == "arena1"
 # observation of the coroutine's initial isolation: the thread idles on the new dispatcher until the resume task arrives
@@ -562,6 +1110,7 @@ SLEEP_FAMILIES = [
     # before recall_owner(); the owner meanwhile idles on its coroutine and goes to sleep
     (("outer", 2, "f", 0, 0), "recall", "R:pub;L:ss=1;F:res;W:ss=0;W:ss=1;M:busy|blk;M:blk;W:rc=1", "R:pub;L:ss=1;F:res;W:ss=0;W:ss=1;M:cnt=%d|blk;W:rc=1", 5, 6),
 ]
+POOL_FACTOR = [4]  # generated: capacity of the co-cache per slot (set by run())
 MARGIN = 40       # scheduling points before the clear transaction opens (covers the waiter's last look at the streams / recall flag)
 
 
@@ -582,7 +1131,7 @@ def make_specs(ck, nrand, ntarget_seeds, families=FAMILIES, tfamilies=TARGET_FAM
     return specs
 
 
-def run_specs(exe, specs):
+def run_specs(exe, specs, pool=True):
     def one(spec):
         r = run_one(exe, spec)
         retries = 0
@@ -603,6 +1152,39 @@ def run_specs(exe, specs):
         except Exception as e:   # a trace the translation cannot even read is a broken correspondence, never silence
             prob, recs, loads = "trace translation failed: %r" % (e,), [], 0
         r["corr"], r["recs"], r["loads"] = prob, recs, loads
+        try:
+            # (the pool driver is configured by the generated skeleton: runs made before the Lean stage are not validated on it)
+            r["pcorr"], r["pstats"] = validate_pool(r, POOL_FACTOR[0]) if pool else (None, {})
+        except common.BuildError as e:
+            r["pcorr"], r["pstats"] = "pool-model driver failed: %s" % e, {}
+        except Exception as e:
+            r["pcorr"], r["pstats"] = "pool trace translation failed: %r" % (e,), {}
+        r["acts"] = {}
+        # resume tasks of the stacks that run a critical task (container crit): which stream were they published into
+        r["crit_push"] = r["plain_push"] = 0
+        if spec["container"] == "crit":
+            csp, ln, sub, byidx = set(), {}, set(), {}
+            for e in r["ev"]:
+                if e[1] == "note":
+                    if e[2] == "cb":
+                        csp.add(e[3])               # the user suspension of this stack is open until its continuation
+                        byidx[e[4]] = e[3]
+                    elif e[2] == "cont":
+                        csp.discard(byidx.get(e[3]))
+                    elif e[2] == "submit_begin":
+                        sub.add(e[0])
+                    elif e[2] == "submit_end":
+                        sub.discard(e[0])
+                elif e[1] == "xchg" and e[2].endswith(".ss") and e[5] == "2":
+                    ln[e[0]] = e[2][:-3]
+                elif e[1] == "for" and e[0] not in sub and ln.get(e[0]) in csp:
+                    if e[2].startswith("cts"):
+                        r["crit_push"] += 1
+                    elif e[2].startswith("rts"):
+                        r["plain_push"] += 1
+        for e in r["ev"]:
+            if e[1] == "note" and e[2] == "actset":
+                r["acts"][e[3]] = r["acts"].get(e[3], 0) + 1
         r["scorr"], r["sevents"] = None, 0
         fam = (spec["container"], spec["P"], spec["modes"], spec["nwork"], spec["nest"])
         if spec["mode"] == "guide" and spec.get("what") == "resume" and fam in SLEEP_TRACE_FAMILIES and r["rc"] == 0:
@@ -614,7 +1196,7 @@ def run_specs(exe, specs):
                 r["scorr"] = "sleep trace translation failed: %r" % (e,)
         r["window"] = classify_window(r) if spec["modes"][0] in "fF" else None
         # keep memory small: the event log is needed again only for a failing run (replay re-runs the scenario anyway)
-        if not prob and not r["scorr"] and r["rc"] == 0:
+        if not prob and not r["scorr"] and not r["pcorr"] and r["rc"] == 0:
             r["ev"] = []
         return r
     out, nbad = [], 0
@@ -654,6 +1236,14 @@ def cex_key(text, spec=None):
         return "suspended-task-never-resumed-deadlock"
     if "livelock" in t or "hang:" in t:
         return "suspend-resume-livelock"
+    if "critical" in t:
+        return "critical-state-not-kept-across-suspension"
+    if "used while cached" in t:
+        return "dispatcher-used-while-cached"
+    if "two slots of the co-cache" in t or "neither one push nor one pop" in t:
+        return "co-cache-ring-corrupted"
+    if "action skipped" in t:
+        return "post-resume-action-skipped"
     if "continuation ran 0" in t:
         return "continuation-forgotten"
     if "continuation ran" in t:
@@ -662,6 +1252,10 @@ def cex_key(text, spec=None):
         return "continued-without-resume-call"
     if "two threads" in t:
         return "continuation-on-two-threads"
+    if "count zero while suspension" in t:
+        return "wait-count-zero-over-suspended-task"
+    if "wrong stack" in t:
+        return "wait-completed-on-the-wrong-stack"
     if "returned while suspension" in t:
         return "wait-completed-over-suspended-task"
     if "different thread" in t:
@@ -898,19 +1492,40 @@ def run(ck):
         "Disp model (suspended_thread_takes_any_task): the initial isolation of the dispatcher a suspending thread moves onto is an OBSERVED fact (white-box sampling at every "
         "scheduling point of the scenarios that suspend inside isolate) plus a source-text check; the filters of the task sources are translated from the C++ expressions",
         "agreement of model and implementation is sampled (explored schedules), not proved"]
-    ck.trusted += ["harness/shim (atomic shim + baton scheduler, dynamic threads, futex emulation)", "harness/c20/sr.cpp monitors, guided schedule and white-box naming of suspend points",
+    ck.assumptions += [
+        "Pool model (cocache_no_double_handout, post_resume_action_runs_once_on_new_stack, dispatcher_destroyed_only_when_idle, multi_suspend_sequence): ONE arena, any number of slot "
+        "threads / foreign threads / coroutines / suspensions, every schedule; every dispatcher carries a full SuspendPoint core; which waiter a dispatch loop runs with (the model's "
+        "`branch`: worker flag and loop depth) is an input chosen by the trace validation from the OBSERVED action; the depth of nested loops beyond `outermost` is not observed",
+        "Pool model: the thread-role errors of the model (a switch / action step whose role on the core is missing) are excluded on the explored traces (the validation fails on any model error) "
+        "but only the cache-related ones (`cacheErr`) are excluded by a theorem; proving `err = none` for every schedule needs the thread-to-core ownership invariant (not done)",
+        "Wait model (wait_covers_suspended_task, no_wait_completion_from_wrong_stack): frames, wait tree and attach / detach at the level of whole operations; which thread may attach "
+        "to which stack is left open (any stack nobody runs) — the Pool model says when the code does it; its tie: the regenerated order `body, then finalize / release` for function_task, "
+        "start_for and delegated_task, the recall_point guard, and implementation-side monitors: the reference count of the task_group's wait_context sampled at every scheduling point "
+        "while a covered task is suspended (task_group containers), wait / parallel_for return on the calling thread, wait returns only after every continuation",
+        "m_is_critical (the field the property text names) is never read or written in this tree; what decides the stream of a resume task is the target dispatcher's "
+        "m_properties.critical_task_allowed, which lives in the dispatcher and is not touched by the switch code (source obligation on r1::resume)",
+        "white-box events (attach changes, my_post_resume_action / arg, co-cache ring, `outermost`) are obtained by sampling the running thread's thread_data and its arena at every "
+        "scheduling point and logging the CHANGES (no source hook): an event is attributed to the window between two consecutive scheduling points of that thread",
+        "arenas created and destroyed inside a task (nest bit 4: task_arena::execute of a temporary arena) are covered by the monitors and the SuspendPoint validation, not by the pool validation"]
+    ck.trusted += ["harness/c20/sr.cpp white-box sampler (what changed between two scheduling points) and harness/c20/cc.cpp", "trace-to-pool translation in checks/c20.py (pool_lines)",
+                   "harness/shim (atomic shim + baton scheduler, dynamic threads, futex emulation)", "harness/c20/sr.cpp monitors, guided schedule and white-box naming of suspend points",
                    "trace-to-model translation in checks/c20.py (which access plays which role; look-ahead to classify a leave as recall/park/wait)",
                    "checks/cexpr.py and the regular expressions of checks/c20.py that locate the generated facts in the source"]
     lean = gen_static(ck)
+    plean, factor = gen_pool(ck)
+    lean += plean + gen_wait(ck)
+    POOL_FACTOR[0] = max(1, factor)
     exe = build()
     # ---- observed fact: isolation of the dispatcher a suspending thread moves onto --------------------------------------------
     probe_specs = [mkspec(fam, "rand", ck.seed * 131 + 7 * fi + j) for fi, fam in enumerate(PROBE_FAMILIES) for j in range(4)]
-    probe_runs = run_specs(exe, probe_specs)
+    probe_runs = run_specs(exe, probe_specs, pool=False)
     gen_finish(ck, lean, probe_runs)
     ck.lean_stage()
     # ---- random + targeted schedules ---------------------------------------------------------------------------------------------
     specs = make_specs(ck, 150 if quick else 1500, 20 if quick else 150)
     specs += make_specs(ck, 60 if quick else 600, 0, families=ISO_FAMILIES, tfamilies=[], salt=3)
+    specs += make_specs(ck, 60 if quick else 500, 0, families=NEW_FAMILIES, tfamilies=[], salt=9)
+    specs += probe_specs        # (once more, now also validated on the pool model)
     runs = probe_runs + run_specs(exe, specs)
     # ---- state-guided schedules through the sleep path -----------------------------------------------------------------------------
     probes = sleep_probes(ck, 1 if quick else 4)
@@ -921,6 +1536,30 @@ def run(ck):
     ck.extra["sleep_path_probes"] = winfo
     ck.extra["sleep_path_window_runs"] = len(wruns)
     runs += pres + wruns
+    crit_runs = [r for r in runs if r["spec"]["container"] == "crit" and r["rc"] == 0]
+    crit_bad = [r for r in crit_runs if r.get("plain_push", 0) > 0 or r.get("crit_push", 0) != len(r["spec"]["modes"])]
+    ck.extra["resume_tasks_of_critical_stacks_published_into_the_critical_stream"] = sum(r.get("crit_push", 0) for r in crit_runs)
+    ck.oblige("monitor:critical state — a task submitted as critical that suspends: its stack has critical_task_allowed == false before and after the suspension, it continues on the "
+              "same dispatcher, and its resume task is published into the critical stream (and only there)", "correspondence",
+              bool([r for r in runs if mon_problem(r)]) or (not crit_bad and len(crit_runs) > 0),
+              "%d runs" % len(crit_runs) if not crit_bad else "%s: %d pushes into the critical stream, %d into the resume stream" % (spec_name(crit_bad[0]["spec"]), crit_bad[0].get("crit_push", 0), crit_bad[0].get("plain_push", 0)))
+    rd_prob, rd_ops = ring_differential(ck, 150 if quick else 1500)
+    ck.extra["co_cache_ring_operations_compared"] = rd_ops
+    bad_pcorr = [r for r in runs if r.get("pcorr")]
+    pool = {}
+    acts = {}
+    for r in runs:
+        for k, v in r.get("pstats", {}).items():
+            pool[k] = pool.get(k, 0) + v
+        for k, v in r.get("acts", {}).items():
+            acts[ACT_NAMES.get(int(k), k)] = acts.get(ACT_NAMES.get(int(k), k), 0) + v
+        for k in ("evictions", "ring_pops", "ring_pushes", "switches"):
+            pool["impl_" + k] = pool.get("impl_" + k, 0) + r["stat"].get(k, 0)
+        for a in r.get("acts", {}):
+            ck.count(0, ("action", a, r["spec"]["container"]))
+    ck.extra["pool_validation"] = pool
+    ck.extra["samples_of_the_group_wait_count_while_a_covered_task_was_suspended"] = sum(r.get("count_samples", 0) for r in runs)
+    ck.extra["post_resume_actions_observed"] = acts
     bad_corr = [r for r in runs if r["corr"]]
     bad_scorr = [r for r in runs if r.get("scorr")]
     sleep_validated = sum(1 for r in runs if r.get("sevents"))
@@ -967,6 +1606,14 @@ def run(ck):
     need_windows = {"in-callback", "after-callback-before-switch", "between-switch-and-leaver-exchange", "after-leaver-exchange"}
     ck.oblige("corr:every m_stack_state / m_is_owner_recalled access and resume-task publication of every suspend point is an enabled step of the Lean model with the same values",
               "correspondence", not bad_corr, "" if not bad_corr else "%s | %s" % (bad_corr[0]["corr"], spec_name(bad_corr[0]["spec"])))
+    ck.oblige("corr:pool — every stack switch (detach/attach), co-cache pop / push / replacement, coroutine creation, post-resume action (set before the switch, executed after it), "
+              "recall-flag read of internal_suspend, access to the state words of every suspend point and resume-task publication of every arena is the step the Pool model's thread "
+              "takes next, with the same dispatchers and values; the model never flags a double hand-out, a misuse of a suspend point or an unfinished switch, and at arena "
+              "destruction cleanup() destroys exactly the model's cached dispatchers",
+              "correspondence", not bad_pcorr, "%d runs, %d events, %d switches validated" % (len(runs), pool.get("events", 0), pool.get("switches", 0)) if not bad_pcorr
+              else "%s | %s" % (bad_pcorr[0]["pcorr"], spec_name(bad_pcorr[0]["spec"])))
+    ck.oblige("corr:arena_co_cache — the real ring buffer (white box, real task_dispatcher objects, random push / pop / cleanup sequences, capacities 1..8) answers every operation "
+              "as the Lean ring model does (replaced entry, returned entry, head index, cleanup order)", "correspondence", rd_prob is None, rd_prob or "%d operations" % rd_ops)
     ck.oblige("corr:sleep path — in the guided single-thread-arena runs every access of the sleeping thread and of the resumer to my_pool_state, the resume stream's population, "
               "the monitor's epoch / wait-set size and the recall flag, between the suspension and its continuation, is the access the Sleep model's thread makes at its "
               "current step, with the same value (test_and_set / try_clear_if / has_tasks / prepare_wait / wake-up condition / commit_wait / notify)",
@@ -980,6 +1627,10 @@ def run(ck):
     ck.oblige("coverage:both documented chains (A->S->N->A and A->N->S->N->A), owner recall, coroutine reuse and all four resume windows were exercised",
               "correspondence", bool(bad_mon) or ({"ASNA", "ANSNA"} <= chains and need_windows <= set(windows) and any(k[1] == "recall" for k in classes) and any(k[1] == "park" for k in classes)),
               "chains %s windows %s" % (sorted(chains), sorted(windows)))
+    need_acts = {"register_waiter", "cleanup", "notify"}
+    ck.oblige("coverage:pool — all post-resume actions occurred, coroutines were created, cached, reused, replaced in a full co-cache (destroyed) and destroyed by cleanup() at arena destruction",
+              "correspondence", bool(bad_mon) or bool(bad_pcorr) or (need_acts <= set(acts) and pool.get("impl_evictions", 0) > 0 and pool.get("impl_ring_pops", 0) > 0 and pool.get("dead", 0) > 0 and pool.get("freed", 0) > 0),
+              "actions %s; replacements %d, pops %d, pushes %d, destroyed in the model %d, arenas freed %d" % (acts, pool.get("impl_evictions", 0), pool.get("impl_ring_pops", 0), pool.get("impl_ring_pushes", 0), pool.get("dead", 0), pool.get("freed", 0)))
     rel = set(wclasses)
     need_rel = [("resume", "busy"), ("resume", "unset", "not-in-waitset"), ("resume", "unset", "in-waitset", "running"), ("resume", "unset", "in-waitset", "parked"),
                 ("recall", "unset", "not-in-waitset"), ("recall", "unset", "in-waitset", "parked")]    # (recall: fi of the outer P=2 family)
@@ -1025,10 +1676,11 @@ def run(ck):
         if ms:
             ck.extra["model_level_lost_resume"] = ({"input": ms[0], "final_state": ms[1]} if isinstance(ms, tuple) else ms)
             log("Sleep model under the generated configuration: %s" % (ms,))
-    if not (bad_mon or bad_live) and (bad_corr or bad_scorr or ck.broken()):
+    if not (bad_mon or bad_live) and (bad_corr or bad_scorr or bad_pcorr or ck.broken()):
         log("obligation broken without a monitor violation: searching more schedules for a failing input")
         more = make_specs(ck, 300 if quick else 1500, 40 if quick else 150, salt=1)
         more += make_specs(ck, 200 if quick else 1000, 0, families=ISO_FAMILIES, tfamilies=[], salt=5)
+        more += make_specs(ck, 200 if quick else 1000, 0, families=NEW_FAMILIES, tfamilies=[], salt=11)
         runs2 = run_specs(exe, more)
         probes2 = sleep_probes(ck, 3 if quick else 8, salt=1)
         pres2 = run_specs(exe, [sp for _, _, sp in probes2])
@@ -1052,6 +1704,11 @@ def replay(ck, obj):
         print("model   : %s" % (c or "trace is accepted by the model"))
     except common.BuildError as e:
         print("model   : driver unavailable (%s)" % e)
+    try:
+        pc, _ = validate_pool(res, POOL_FACTOR[0])
+        print("pool    : %s" % (pc or "trace is accepted by the pool model"))
+    except Exception as e:
+        print("pool    : %r" % (e,))
     for g in res["guides"]:
         print("  guide ended: %s" % g)
     for e in res["ev"]:
